@@ -776,4 +776,34 @@ example :
   rw [gen_save_is_model]
   decide
 
+/-! ### KNOWN FINDING `C04-failed-load-resurfaces-after-clear`, as theorems about the model AND the extracted code
+
+The history theorems above (`find_sound` & co.) quantify over histories whose loads are COMPLETE
+(`save` then `load` into a fresh table).  Outside that hypothesis the property fails, of the model and of the
+code alike: a rejected `load` has already stored the entries it could read, under the seal of the FILE, and leaves
+`seal_` alone; the next `clear()` may bring `seal_` to that seal, and a lookup then returns a value that was
+stored before the clear.  Replay on the real cache: corpus/C04/failed-load-then-clear.ops. -/
+
+open Vita.C04.IO in
+/-- the witness, for every cache, key and value: a stream that announces two entries and holds one is rejected,
+    and after the following `clear()` the entry it did hold answers the lookup -/
+theorem failed_load_then_clear_stale (c : Cache) (k : Key) (v : Fit) (h : c.sl + 1 ≠ 0) :
+    (loadT c [.u32 (c.sl + 1), .size 2, .key k, .fit v]).1 = false ∧
+    (loadT c [.u32 (c.sl + 1), .size 2, .key k, .fit v]).2.clear.find k = some v := by
+  have e : (2 : UInt64).toNat = 1 + 1 := rfl
+  simp [loadT, e, loadGoT, Cache.clear, h, Cache.find, setSlot]
+
+open Vita.C04.IO in
+/-- the same about the EXTRACTED bodies of cache::load, cache::clear and cache::find -/
+theorem gen_failed_load_then_clear_stale (st : CState) (k : Key) (v : Fit) (h : st.sl + 1 ≠ 0) :
+    ∃ st1 st2, gload st [.u32 (st.sl + 1), .size 2, .key k, .fit v] = some (false, st1) ∧
+      gclear st1 = some st2 ∧ gfind st2 k = some v := by
+  have e : (2 : UInt64).toNat = 1 + 1 := rfl
+  let st1 := ofCache st.mask (loadT (toCache st) [.u32 (st.sl + 1), .size 2, .key k, .fit v]).2
+  refine ⟨st1, ofCache st1.mask (toCache st1).clear, ?_, gen_clear_is_model st1, ?_⟩
+  · rw [gen_load_is_model]
+    simp [st1, loadT, e, loadGoT, toCache]
+  · rw [gen_find_is_model]
+    simp [st1, loadT, e, loadGoT, toCache, ofCache, Cache.clear, h, Cache.lookup, Cache.find, setSlot]
+
 end Vita.C04
